@@ -125,11 +125,16 @@ func genC06(seed uint64, tier string, outdir string) *Report {
 		sc := NewL2Scenario(seed+uint64(base), 0, false)
 		e := sc.Env
 		if base == 1 { // advance to next = 3 first
-			for s := uint64(1); s <= 2; s++ {
-				r := e.L2Exec(sc.Deposit(e.User(1).Str, s, e.User(4).Str, 0, big.NewInt(10), Hook{Kind: "none"}))
-				if !r.OK {
-					panic("setup deposit failed: " + r.Err)
+			refused := false
+			for s := uint64(1); s <= 2 && !refused; s++ {
+				op := sc.Deposit(e.User(1).Str, s, e.User(4).Str, 0, big.NewInt(10), Hook{Kind: "none"})
+				if r := e.L2Exec(op); !r.OK {
+					l2SetupRefused(rep, "C06", e, 0, op, r)
+					refused = true
 				}
+			}
+			if refused {
+				continue
 			}
 			sc.Case.Bals, sc.Case.Sups, sc.Case.Pairs = nil, nil, nil
 			sc.Case.Snapshot()
@@ -170,6 +175,7 @@ func genC06(seed uint64, tier string, outdir string) *Report {
 				}
 			}
 			c06Check(rep, c, start)
+			l2AuthorisedCheck(rep, c, "C06", start)
 			l2QueryMonitor(rep, c, "C06")
 			rep.Ops += len(c.Ops)
 			rep.CountCase(strings.Join(opsCoq(c.Ops), "\n"), succ && rej)
@@ -286,7 +292,8 @@ func genC06(seed uint64, tier string, outdir string) *Report {
 		}
 		nv := len(rep.Violations)
 		c06Check(rep, c, 1)
-		shrinkL2Violations(rep, nv, c, l2Replayer{Fresh: fresh, Monitor: func(rp *Report, cc *L2Case, _ Ov) { c06Check(rp, cc, 1) }})
+		l2AuthorisedCheck(rep, c, "C06", 1)
+		shrinkL2Violations(rep, nv, c, l2Replayer{Fresh: fresh, Monitor: func(rp *Report, cc *L2Case, _ Ov) { c06Check(rp, cc, 1); l2AuthorisedCheck(rp, cc, "C06", 1) }})
 		l2QueryMonitor(rep, c, "C06")
 		rep.Ops += len(c.Ops)
 		rep.CountCase(strings.Join(opsCoq(c.Ops), "\n"), succ && rej)
@@ -337,7 +344,12 @@ func genC06(seed uint64, tier string, outdir string) *Report {
 			nv := len(rep.Violations)
 			c06Check(rep, c, 1)
 			c06EventCheck(rep, c)
-			shrinkL2Violations(rep, nv, c, l2Replayer{Fresh: fresh, Monitor: func(rp *Report, cc *L2Case, _ Ov) { c06Check(rp, cc, 1); c06EventCheck(rp, cc) }})
+			l2AuthorisedCheck(rep, c, "C06", 1)
+			shrinkL2Violations(rep, nv, c, l2Replayer{Fresh: fresh, Monitor: func(rp *Report, cc *L2Case, _ Ov) {
+				c06Check(rp, cc, 1)
+				c06EventCheck(rp, cc)
+				l2AuthorisedCheck(rp, cc, "C06", 1)
+			}})
 			l2QueryMonitor(rep, c, "C06")
 			rep.Ops += len(c.Ops)
 			rep.CountCase(strings.Join(opsCoq(c.Ops), "\n"), k > 0)
@@ -374,10 +386,16 @@ func c06Reentrancy(rep *Report, seed uint64, tier string) {
 					sc := fresh()
 					e, c := sc.Env, sc.Case
 					A := e.User(1).Str
-					for q := 0; q < pre; q++ {
-						if r := c.Do(sc.Deposit(A, uint64(q+1), e.User(4).Str, 0, big.NewInt(10), Hook{Kind: "none"})); !r.OK {
-							panic("setup deposit failed: " + r.Err)
+					refused := false
+					for q := 0; q < pre && !refused; q++ {
+						op := sc.Deposit(A, uint64(q+1), e.User(4).Str, 0, big.NewInt(10), Hook{Kind: "none"})
+						if r := c.Do(op); !r.OK {
+							l2SetupRefused(rep, "C06", e, c.ID, op, r)
+							refused = true
 						}
+					}
+					if refused {
+						continue
 					}
 					n := uint64(pre + 1)
 					innerSeq := uint64(int(n) + delta)
